@@ -411,3 +411,27 @@ impl Space for C11 {
         out
     }
 }
+
+/// The tree generator, reusable by other checks (fully parenthesised query text per index).
+pub struct GenPub {
+    g: Gen,
+    maxn: usize,
+}
+
+impl GenPub {
+    pub fn new(leaves: Vec<&'static str>, maxn: usize) -> GenPub {
+        GenPub { g: Gen::new(leaves, maxn), maxn }
+    }
+    pub fn total(&self) -> u64 {
+        self.g.count[..=self.maxn].iter().sum()
+    }
+    pub fn text(&self, mut idx: u64) -> String {
+        for n in 0..=self.maxn {
+            if idx < self.g.count[n] {
+                return self.g.unrank(n, idx);
+            }
+            idx -= self.g.count[n];
+        }
+        panic!("out of range")
+    }
+}
